@@ -205,3 +205,25 @@ Proof.
   destruct H1, H2.
   now destruct (fname_injective_lemma what what sources freqs (s1, f1) (s2, f2)) as [_ ?].
 Qed.
+
+(* ---- the on-demand path (get_efield / get_hfield / recomputation) ---- *)
+Lemma mpshape_ondemand : ondemand_keys_ok = true.
+Proof. vm_compute. reflexivity. Qed.
+
+(* History: a hand-over name built from the RUNNING NUMBER of the task in the list
+   being dispatched (unique within one full compute) is the same for every
+   on-demand task, because each is dispatched in a one-element list. *)
+Definition fname_by_task_number (what : string) (dispatched : list (string * string))
+           (k : string * string) : string :=
+  String.append what (String.append "_"
+    (String.append (dec (index_of (String.append (fst k) (String.append "|" (snd k)))
+                                   (map (fun q => String.append (fst q) (String.append "|" (snd q)))
+                                        dispatched))) ".h5")).
+
+Lemma fname_by_task_number_collision :
+  exists k1 k2 : string * string,
+    k1 <> k2 /\ fname_by_task_number "efield" [k1] k1 = fname_by_task_number "efield" [k2] k2.
+Proof.
+  exists ("TxED-1", "f-1")%string, ("TxED-2", "f-1")%string.
+  split; [intros H; inversion H|vm_compute; reflexivity].
+Qed.
